@@ -2,18 +2,22 @@
 """Collects confirmed seeded changes from /tmp/seed into /verif/seeded/<prop>-m<k>/."""
 import json, os, glob, shutil, re, sys
 NOTES={
+ 'C08-r4m2': 'NOT DETECTED, judged ambiguous rather than in domain: with SupportNegativeIndices off AND AllowMissingPathOnRemove on, a remove at a negative index below -len is skipped instead of failing. The reference treats negative tokens with negatives off under AllowMissingPathOnRemove as DontCare (the statement says such a remove is neither clearly "a target that does not exist" nor clearly an error), so no check demands either behaviour.',
+ 'C10-r4m2': 'NOT DETECTED: a 256-slot ring cache of decoded op/path/from strings read after RUnlock; needs more than 256 distinct literals in circulation and fails about once per 130k-320k concurrent calls (no data race: RWMutex + atomic.Value). Outside what a bounded exhaustive schedule exploration of 2-3 short calls can reach, and too rare for the free-running pass; recorded as a limit of the technique at these bounds (DESIGN section 8).',
  'C08-r2m2': 'NOT DETECTED, and judged outside the stated domains: the change only shows for a Patch that did not come from DecodePatch (json.Unmarshal into jsonpatch.Patch with an unknown "op"); every property quantifies over patches accepted by DecodePatch (C01) and C04 names hand-assembled Patch values as excluded. Kept as a record of a miss that is a scope decision, not an oracle gap.',
 }
 out='/verif/seeded'
 os.makedirs(out, exist_ok=True)
-for rf in sorted(glob.glob('/tmp/seed/results/*.json'))+sorted(glob.glob('/tmp/seed/results2/*.json'))+sorted(glob.glob('/tmp/seed/results3/*.json')):
+for rf in sorted(glob.glob('/tmp/seed/results/*.json'))+sorted(glob.glob('/tmp/seed/results2/*.json'))+sorted(glob.glob('/tmp/seed/results3/*.json'))+sorted(glob.glob('/tmp/seed/results4/*.json')):
     rnd2='results2' in rf
     rnd3='results3' in rf
+    rnd4='results4' in rf
     name=os.path.basename(rf)[:-5]           # C01-m1
     pid,m=name.split('-')
-    srcdir='/tmp/seed/out3' if rnd3 else ('/tmp/seed/out2' if rnd2 else '/tmp/seed/out')
+    srcdir='/tmp/seed/out4' if rnd4 else '/tmp/seed/out3' if rnd3 else ('/tmp/seed/out2' if rnd2 else '/tmp/seed/out')
     if rnd2: name=pid+'-r2'+m
     if rnd3: name=pid+'-r3'+m
+    if rnd4: name=pid+'-r4'+m
     s=open(rf).read()
     try: r=json.loads(s[s.index('{'):])
     except Exception as e:
